@@ -13,7 +13,8 @@ import (
 
 // SubmitResp is one scripted answer to a Submit call.
 type SubmitResp struct {
-	// Kind: accept | prefix | timeout | mempool | toobig | error | acklost | hang | seqerr | deadline
+	// Kind: accept | prefix | timeout | mempool | toobig | error | acklost | hang | seqerr | deadline |
+	//       canceled | da-canceled
 	Kind string `json:"kind"`
 	// K is the number of blobs accepted for Kind=prefix (clamped to len-1, at least 0).
 	K int `json:"k,omitempty"`
@@ -346,6 +347,16 @@ func (d *DADbl) SubmitWithOptions(ctx context.Context, blobs []coreda.Blob, gasP
 		finish("deadline", 0, 0)
 		d.mu.Unlock()
 		return nil, coreda.ErrContextDeadline
+	case "canceled":
+		// the DA node (or the RPC layer in front of it) answers "context canceled" although the
+		// caller's context is alive, e.g. a DA node that is shutting down
+		finish("canceled", 0, 0)
+		d.mu.Unlock()
+		return nil, fmt.Errorf("dadbl: remote: %w", context.Canceled)
+	case "da-canceled":
+		finish("da-canceled", 0, 0)
+		d.mu.Unlock()
+		return nil, coreda.ErrContextCanceled
 	case "error":
 		finish("error", 0, 0)
 		d.mu.Unlock()
